@@ -65,8 +65,13 @@ func Guard(f func() string) string {
 	select {
 	case res = <-done:
 	case <-time.After(Watchdog):
-		res = "hang"
-		Hangs++
+		// a loaded machine must not produce a false "hang": wait four times as long again
+		select {
+		case res = <-done:
+		case <-time.After(4 * Watchdog):
+			res = "hang"
+			Hangs++
+		}
 	}
 	os.Stdout = saved
 	return res
